@@ -15,6 +15,7 @@ import (
 	"runtime/debug"
 	"sort"
 	"strings"
+	"unicode/utf8"
 
 	gio "github.com/whatap/golib/io"
 	"github.com/whatap/golib/lang/pack/udp"
@@ -957,6 +958,8 @@ type tok struct {
 	K string   `json:"k"`
 	V []string `json:"v"`
 	S string   `json:"s"`
+	// the undecorated, unique part of each value atom of a password token: none of it may be left either
+	Cores []string `json:"-"`
 }
 
 func render(ts []tok) string {
@@ -977,21 +980,19 @@ func render(ts []tok) string {
 // lex cuts a text into symbols: "=", " ", ";" and the maximal runs between them
 func lex(s string) []string {
 	out := []string{}
-	cur := ""
+	start := 0
 	for i := 0; i < len(s); i++ {
 		ch := s[i]
 		if ch == '=' || ch == ' ' || ch == ';' {
-			if cur != "" {
-				out = append(out, cur)
-				cur = ""
+			if i > start {
+				out = append(out, s[start:i])
 			}
 			out = append(out, string(ch))
-		} else {
-			cur += string(ch)
+			start = i + 1
 		}
 	}
-	if cur != "" {
-		out = append(out, cur)
+	if len(s) > start {
+		out = append(out, s[start:])
 	}
 	return out
 }
@@ -1014,6 +1015,9 @@ func maskOne(t *core.Trace, pt ptype, ver int32, ts []tok) {
 				if a != "=" {
 					secrets = append(secrets, core.Str(a))
 				}
+			}
+			for _, a := range k.Cores {
+				secrets = append(secrets, core.Str(a))
 			}
 		}
 	}
@@ -1066,9 +1070,9 @@ func tokUniverse(pos int) []tok {
 	ua, ub := fmt.Sprintf("u%d", pos), fmt.Sprintf("w%d", pos)
 	for _, s := range []string{" ", ";"} {
 		u = append(u,
-			tok{"password", []string{sa}, s}, tok{"password", []string{sa, "=", sb}, s}, tok{"password", []string{}, s},
-			tok{"user", []string{ua}, s}, tok{"user", []string{ua, "=", ub}, s}, tok{"user", []string{}, s},
-			tok{"Password", []string{capMarker}, s}, tok{"", []string{fmt.Sprintf("b%d", pos)}, s})
+			tok{K: "password", V: []string{sa}, S: s}, tok{K: "password", V: []string{sa, "=", sb}, S: s}, tok{K: "password", V: []string{}, S: s},
+			tok{K: "user", V: []string{ua}, S: s}, tok{K: "user", V: []string{ua, "=", ub}, S: s}, tok{K: "user", V: []string{}, S: s},
+			tok{K: "Password", V: []string{capMarker}, S: s}, tok{K: "", V: []string{fmt.Sprintf("b%d", pos)}, S: s})
 	}
 	return u
 }
@@ -1091,7 +1095,89 @@ func enumTokSeqs(max int) [][]tok {
 	return out
 }
 
-var rndKeys = []string{"password", "password", "password", "pwd", "user", "host", "port", "dbname", "Password", "PASSWORD", "sslmode", "passwordx", "xpassword", ""}
+// ---- the alphabet of keys, values and bare words.
+// A connection string is cut at ' ', ';' and '=' only: every other character is an ordinary character of a key
+// or a value to the masking, whatever it means to a shell, a URL, SQL or a quoting convention.  The atoms are
+// therefore spelled with quote characters (paired and UNPAIRED), backslashes and escape sequences, brackets,
+// percent escapes, comment openers, control characters, multi-byte runes (also those whose lower-case form has
+// another UTF-8 length) and invalid UTF-8, before, inside and after a plain core, in every position relative to
+// the password token.
+var plainSpice = []string{
+	"'", "\"", "`", "\\", "''", "\"\"", "'\"", "\"'", "\\'", "\\\"", "\\\\", "\\n", "\\x3b", "\\073",
+	"{", "}", "{{", "(", ")", "[", "]", "<", ">", "%", "%3B", "%20", "%27", "%3D", "#", "--", "/*", "*/", "//",
+	"&", "&#59", "?", "$", "${", "!", "|", "^", "~", ",", ":", "@", "/", "+", "*", ".", "-", "_",
+	"\x00", "\x01", "\x1b", "\x7f", "é", "ü", "ß", "ñ", "É", "Ж", "한", "日本", "\U0001F600",
+	"\u200b", "\ufeff", "\u0301",
+}
+
+// white space other than ' ' (golib trims it at the ends of a key and of a value; the rewriting model of the spec
+// knows ' ' only): spelled INSIDE an atom only
+var wsSpice = []string{"\t", "\n", "\r", "\v", "\f", "\u00a0", "\u3000", "\u0085", "\u2003"}
+
+// runes whose lower-case form has another UTF-8 length, and invalid UTF-8
+var lowerSpice = []string{"\u0130", "\u212a", "\u023a", "\u1e9e", "\u2126", "\xff", "\xc3", "\xe2\x82"}
+
+// open known finding C07-topair-lowered-index: paramtext.ToPair looks for '=' in the LOWER-CASED token and cuts
+// the original at that index; a rune whose lower-case form has another UTF-8 length standing before the first '='
+// of a piece moves the cut (the password key is no longer recognised, or the slice is out of range).
+// While the finding is open the generators keep such runes out of the atoms that can stand before the first '='
+// of a piece (keys, bare words); in values they are always used.
+const kfLowerLen = "C07-topair-lowered-index"
+
+func init() {
+	for _, l := range [][]string{plainSpice, wsSpice, lowerSpice} {
+		for _, x := range l {
+			if x == "" || strings.ContainsAny(x, " ;=") {
+				panic(fmt.Sprintf("c07: spelling %q holds a structural character", x))
+			}
+		}
+	}
+	for _, x := range plainSpice {
+		if strings.TrimSpace(x) != x || (utf8.ValidString(x) && len(strings.ToLower(x)) != len(x)) {
+			panic(fmt.Sprintf("c07: spelling %q is in the wrong table", x))
+		}
+	}
+}
+
+var steerLowerLen = true
+
+// spice spells an atom as pre + head + infix + tail + post.  where: "value" (anything), "key" (a key or a bare
+// word: it can stand before the first '=' of a piece).
+func spice(r *rand.Rand, head, tail string, where string) string {
+	if r.Intn(100) < 35 {
+		return head + tail
+	}
+	pick := func(inside bool) string {
+		x := r.Intn(100)
+		switch {
+		case x < 12 && (where == "value" || !steerLowerLen):
+			return lowerSpice[r.Intn(len(lowerSpice))]
+		case x < 24 && inside:
+			return wsSpice[r.Intn(len(wsSpice))]
+		case x < 50:
+			return plainSpice[r.Intn(10)] // the quote characters and backslashes
+		}
+		return plainSpice[r.Intn(len(plainSpice))]
+	}
+	pre, in, post := "", "", ""
+	for n := 1 + r.Intn(3); n > 0; n-- {
+		switch r.Intn(3) {
+		case 0:
+			pre = pick(false) + pre
+		case 1:
+			if head != "" && tail != "" {
+				in += pick(in == "")
+			} else {
+				post += pick(false)
+			}
+		default:
+			post += pick(false)
+		}
+	}
+	return pre + head + in + tail + post
+}
+
+var rndKeys = []string{"password", "password", "password", "pwd", "user", "host", "port", "dbname", "Password", "PASSWORD", "sslmode", "passwordx", "xpassword", "", ""}
 
 func word(r *rand.Rand) string {
 	const a = "abcdefghijklmnopqrstuvwxyzABCDEFGHIJKLMNOPQRSTUVWXYZ0123456789_-./:@%+"
@@ -1109,44 +1195,89 @@ func randToks(r *rand.Rand) []tok {
 	style := r.Intn(3) // all spaces, all semicolons, mixed
 	for i := range ts {
 		k := rndKeys[r.Intn(len(rndKeys))]
-		var v []string
-		mkv := func() string {
+		var v, cores []string
+		mkv := func(where string) string {
 			if k == "password" {
-				return fmt.Sprintf("SECRET%d%s", i, word(r))
+				c := fmt.Sprintf("SECRET%d", i)
+				cores = append(cores, c)
+				return spice(r, c, word(r), where)
 			}
 			if k == "Password" || k == "PASSWORD" {
-				return capMarker + word(r)
+				return spice(r, capMarker, word(r), where)
 			}
-			return "v" + word(r)
+			return spice(r, "v", word(r), where)
 		}
-		switch r.Intn(6) {
+		first := "value" // the first atom of a token without a key stands where a key stands
+		if k == "" {
+			first = "key"
+		}
+		switch r.Intn(10) {
 		case 0:
 			v = []string{}
 		case 1:
-			v = []string{mkv(), "=", mkv()}
+			v = []string{mkv(first), "=", mkv("value")}
 		case 2:
-			v = []string{mkv(), "=", "="}
+			v = []string{mkv(first), "=", "="}
+		case 3:
+			v = []string{"=", mkv("value")}
+		case 4:
+			v = []string{mkv(first), "=", mkv("value"), "=", mkv("value")}
+		case 5:
+			v = []string{mkv(first), "="}
 		default:
-			v = []string{mkv()}
+			v = []string{mkv(first)}
 		}
 		if k == "" && len(v) == 0 {
-			v = []string{"bare" + word(r)}
+			v = []string{spice(r, "bare", word(r), "key")}
+		}
+		if k != "" && k != "password" && r.Intn(8) == 0 {
+			// other keys with the same spellings (a key is trimmed and compared as it stands)
+			k = spice(r, "k", word(r), "key")
 		}
 		s := " "
 		if style == 1 || (style == 2 && r.Intn(2) == 0) {
 			s = ";"
 		}
-		ts[i] = tok{k, v, s}
+		ts[i] = tok{K: k, V: v, S: s, Cores: cores}
 	}
 	return ts
 }
 
+// respell gives the atoms of a sequence of the enumerated universe other spellings (same token structure)
+func respell(r *rand.Rand, ts []tok) []tok {
+	out := make([]tok, len(ts))
+	for i, t := range ts {
+		n := tok{K: t.K, S: t.S, V: make([]string, len(t.V))}
+		for j, a := range t.V {
+			switch {
+			case a == "=":
+				n.V[j] = a
+			case t.K == "" && j == 0:
+				n.V[j] = spice(r, a, "", "key")
+			default:
+				n.V[j] = spice(r, a, "", "value")
+				if t.K == "password" {
+					n.Cores = append(n.Cores, a)
+				}
+			}
+		}
+		out[i] = n
+	}
+	return out
+}
+
 func runMask(c *core.Ctx) {
 	t := c.Trace("c07_mask", "Trace_UdpPack")
+	steerLowerLen = c.Args["c07_lowerlen"] != "explore"
+	for _, id := range strings.Split(c.Args["kf"], "+") {
+		if id == kfLowerLen {
+			steerLowerLen = true
+		}
+	}
 	const block = 24
 	if c.WantGen("enum") {
 		seqs := enumTokSeqs(3)
-		combos := 1
+		combos := 2 // the spelling of the model universe, and one other spelling of the same atoms
 		if c.Thorough() {
 			combos = len(maskTypes) * 2
 		}
@@ -1154,12 +1285,17 @@ func runMask(c *core.Ctx) {
 			if !c.Want("enum", cas) {
 				continue
 			}
+			r := c.Rng("enum", cas)
 			t.Reset("enum", cas, nil)
 			n := 0
 			for i := cas * block; i < (cas+1)*block && i < len(seqs); i++ {
 				for k := 0; k < combos; k++ {
 					j := i + k + int(c.Seed)
-					maskOne(t, maskTypes[j%len(maskTypes)], maskVers[(j/len(maskTypes))%len(maskVers)], seqs[i])
+					ts := seqs[i]
+					if k > 0 {
+						ts = respell(r, ts)
+					}
+					maskOne(t, maskTypes[j%len(maskTypes)], maskVers[(j/len(maskTypes))%len(maskVers)], ts)
 					n++
 				}
 				c.Count("mask:"+render(seqs[i]), strings.Contains(render(seqs[i]), "password="))
@@ -1168,23 +1304,36 @@ func runMask(c *core.Ctx) {
 		}
 	}
 	if c.WantGen("rnd") {
-		n := c.Pick(40, 1500)
+		tr := c.Trace("c07_mask_rnd", "Trace_UdpPack") // its own file: judged side by side with the enumerated one
+		n := c.Pick(60, 1500)
 		for cas := 0; cas < n; cas++ {
 			if !c.Want("rnd", cas) {
 				continue
 			}
 			r := c.Rng("rnd", cas)
-			t.Reset("rnd", cas, nil)
+			tr.Reset("rnd", cas, nil)
 			for i := 0; i < block; i++ {
 				ts := randToks(r)
-				maskOne(t, maskTypes[r.Intn(len(maskTypes))], maskVers[r.Intn(len(maskVers))], ts)
+				maskOne(tr, maskTypes[r.Intn(len(maskTypes))], maskVers[r.Intn(len(maskVers))], ts)
 				c.Count("mask:"+render(ts), strings.Contains(render(ts), "password="))
 				if cas == 0 && i < 2 {
 					c.Sample(map[string]interface{}{"gen": "rnd", "case": cas, "text": render(ts)})
 				}
 			}
-			t.Emit(core.Ev{"ev": "End", "n": block})
+			tr.Emit(core.Ev{"ev": "End", "n": block})
 		}
+	}
+	if c.OnlyGen == "kf_lowerlen" {
+		// witness of the open known finding C07-topair-lowered-index
+		t.Reset("kf_lowerlen", 0, nil)
+		w := [][]tok{
+			{{K: "", V: []string{"İstanbul"}, S: ";"}, {K: "password", V: []string{"SECRET1"}, S: " "}},
+			{{K: "host", V: []string{"db1"}, S: " "}, {K: "", V: []string{"K"}, S: ";"}, {K: "password", V: []string{"SECRET2"}, S: ";"}, {K: "x", V: []string{"1"}, S: " "}},
+		}
+		for i, ts := range w {
+			maskOne(t, maskTypes[i%len(maskTypes)], maskVers[i%2], ts)
+		}
+		t.Emit(core.Ev{"ev": "End", "n": len(w)})
 	}
 	c.SetExtra("capitalised_password_keys_seen", capSeen)
 	c.SetExtra("capitalised_password_keys_left_unmasked_information_only", capSurvived)
@@ -1197,9 +1346,9 @@ func Run(c *core.Ctx) error {
 		"alias: several packs encoded through every encoder entry point, the returned slices kept, looked at again after every later call and only then read (non-trivial: at least two kept outputs); " +
 		"fail: every pool type fed truncated / mutated / foreign-version datagrams through ToPack and ReadPack between acquires (non-trivial: at least one read failed); " +
 		"pool: acquire/fill/release histories replayed on CreatePack/ClosePack with sentinels in every field (non-trivial: some object came back from the pool); " +
-		"masking: token sequences rendered to connection strings and sent through ToBytesPack/ToPack of the SQL, SQL-param and DB-connection packs at Go and PHP versions (non-trivial: a password key is present)"
+		"masking: token sequences rendered to connection strings (keys, values and bare words spelled with quote characters, backslashes, brackets, escapes, control characters, multi-byte runes and invalid UTF-8 around a plain core) and sent through ToBytesPack/ToPack of the SQL, SQL-param and DB-connection packs at Go and PHP versions (non-trivial: a password key is present)"
 	gens := map[string]string{"gate": "codec", "rand": "codec", "long": "codec", "each": "pool", "hist": "pool", "hist2": "pool",
-		"alias": "pool", "fail": "pool", "failr": "pool", "enum": "mask", "rnd": "mask"}
+		"alias": "pool", "fail": "pool", "failr": "pool", "enum": "mask", "rnd": "mask", "kf_lowerlen": "mask"}
 	part := gens[c.OnlyGen]
 	if c.OnlyGen != "" && part == "" && !strings.HasPrefix(c.OnlyGen, "kf_") {
 		return fmt.Errorf("unknown gen %q", c.OnlyGen)
